@@ -53,6 +53,14 @@ pub fn build_world(spec: &Value, goal_kind: &str) -> World {
             match j["kind"].as_str().unwrap() {
                 "pd" => {
                     let mk = |t: &Value, demand: Demand<SingleDimLoad>| {
+                        if let Some(locs) = t["locs"].as_array() {
+                            // a task with places of its own: place k = location locs[k] with the single window tws[k]
+                            let windows = tws(&t["tws"]);
+                            let places = locs.iter().zip(windows).map(|(l, tw)| {
+                                JobPlaceBuilder::default().location(Some(loc(l))).duration(t["dur"].as_f64().unwrap()).times(vec![tw]).build().unwrap()
+                            });
+                            return SingleBuilder::default().demand(demand).add_places(places).build().unwrap();
+                        }
                         SingleBuilder::default()
                             .demand(demand)
                             .location(loc(&t["loc"]))
@@ -151,6 +159,23 @@ pub fn single_of(world: &World, j: usize, part: usize) -> Arc<Single> {
     }
 }
 
+/// location (0-based) and place index of alternative w (0-based) of a task
+pub fn alt_place(t: &Value, w: usize) -> (usize, usize) {
+    match t["locs"].as_array() {
+        Some(locs) => (locs[w].as_u64().unwrap() as usize - 1, w),
+        None => (t["loc"].as_u64().unwrap() as usize - 1, 0),
+    }
+}
+
+/// the alternative (1-based, 0 = none) an activity's place corresponds to
+pub fn alt_of(t: &Value, a: &Activity) -> usize {
+    let windows = tws(&t["tws"]);
+    (0..windows.len())
+        .position(|w| windows[w].start == a.place.time.start && windows[w].end == a.place.time.end && alt_place(t, w).0 == a.place.location)
+        .map(|w| w + 1)
+        .unwrap_or(0)
+}
+
 pub fn task_spec<'a>(world: &'a World, j: usize, part: usize) -> &'a Value {
     let jb = &world.spec["jobs"][j];
     match part {
@@ -175,8 +200,9 @@ pub fn build_ctx(world: &World, tour: &Value, env: Arc<Environment>) -> Insertio
             let (j, part, w) = (a["j"].as_u64().unwrap() as usize - 1, a["part"].as_u64().unwrap() as usize, a["w"].as_u64().unwrap() as usize - 1);
             let t = task_spec(world, j, part);
             let tw = &tws(&t["tws"])[w];
+            let (location, place_idx) = alt_place(t, w);
             rc.route_mut().tour.insert_last(Activity {
-                place: ActPlace { idx: 0, location: t["loc"].as_u64().unwrap() as usize - 1, duration: t["dur"].as_f64().unwrap(), time: tw.clone() },
+                place: ActPlace { idx: place_idx, location, duration: t["dur"].as_f64().unwrap(), time: tw.clone() },
                 schedule: Schedule::new(0., 0.),
                 job: Some(single_of(world, j, part)),
                 commute: None,
@@ -209,7 +235,7 @@ pub fn read_tour(world: &World, ictx: &InsertionContext) -> Value {
                 })
                 .expect("activity of unknown job");
             let t = task_spec(world, j, part);
-            let w = tws(&t["tws"]).iter().position(|tw| tw.start == a.place.time.start && tw.end == a.place.time.end).map(|w| w + 1).unwrap_or(0);
+            let w = alt_of(t, a);
             json!({"j": j + 1, "part": part, "w": w, "arr": a.schedule.arrival as i64, "dep": a.schedule.departure as i64})
         })
         .collect();
@@ -235,7 +261,7 @@ pub fn result_json(world: &World, r: &InsertionResult) -> Value {
                         })
                         .unwrap();
                     let t = task_spec(world, j, part);
-                    let w = tws(&t["tws"]).iter().position(|tw| tw.start == a.place.time.start && tw.end == a.place.time.end).map(|w| w + 1).unwrap_or(0);
+                    let w = alt_of(t, a);
                     json!({"idx": idx, "j": j + 1, "part": part, "w": w})
                 })
                 .collect();
